@@ -200,15 +200,50 @@ func runCase(ops []string, forced []string, em *emitter) {
 				ans = "ok"
 			}
 		case "flow":
-			if len(w) == 2 {
-				cfg.flows = append(cfg.flows, &flowDef{name: proto.Dec(w[1]), url: txnURL, hasURL: true})
-				ans = "ok"
-			} else if len(w) == 3 {
-				if u, ok := proto.KV(w[2:], "url"); ok {
-					f := &flowDef{name: proto.Dec(w[1]), url: proto.Dec(u), hasURL: u != "-"}
-					cfg.flows = append(cfg.flows, f)
-					ans = "ok"
+			if len(w) < 2 {
+				break
+			}
+			f := &flowDef{name: proto.Dec(w[1]), url: txnURL, hasURL: true}
+			ok := true
+			for _, x := range w[2:] {
+				kv := strings.SplitN(x, "=", 2)
+				if len(kv) != 2 {
+					ok = false
+					break
 				}
+				switch kv[0] {
+				case "url":
+					f.url, f.hasURL = proto.Dec(kv[1]), kv[1] != "-"
+				case "status":
+					for _, c := range strings.Split(kv[1], ",") {
+						if !isInt(c) {
+							ok = false
+						}
+						f.status = append(f.status, c)
+					}
+				default:
+					ok = false
+				}
+			}
+			if ok {
+				cfg.flows = append(cfg.flows, f)
+				ans = "ok"
+			}
+		case "connnull":
+			if len(w) == 3 && cfg.flow(proto.Dec(w[1])) != nil && (w[2] == "req" || w[2] == "res") {
+				f := cfg.flow(proto.Dec(w[1]))
+				if w[2] == "req" {
+					f.req = append(f.req, connDef{null: true})
+				} else {
+					f.res = append(f.res, connDef{null: true})
+				}
+				ans = "ok"
+			}
+		case "procnull":
+			if len(w) == 3 && cfg.flow(proto.Dec(w[1])) != nil {
+				f := cfg.flow(proto.Dec(w[1]))
+				f.procs = append(f.procs, procDef{key: proto.Dec(w[2]), null: true})
+				ans = "ok"
 			}
 		case "proc":
 			if len(w) < 4 || cfg.flow(proto.Dec(w[1])) == nil {
@@ -240,9 +275,9 @@ func runCase(ops []string, forced []string, em *emitter) {
 			}
 			f := cfg.flow(proto.Dec(w[1]))
 			if w[2] == "req" {
-				f.req = append(f.req, connDef{from, to})
+				f.req = append(f.req, connDef{from: from, to: to})
 			} else {
-				f.res = append(f.res, connDef{from, to})
+				f.res = append(f.res, connDef{from: from, to: to})
 			}
 			ans = "ok"
 		case "qfile":
